@@ -98,6 +98,11 @@ CHECKS = {
    note=TB + "scikit-learn's graphical lasso is external (its tolerance 1e-4 on the dual gap bounds what 'minimises' can mean); the weak-duality theorem takes a factorisation W = BᵀB as the certificate form of M⁻¹ ≻ 0.",
    technique="Lean 4 proof (input construction, vetting logic, log-det inequality, weak duality) + certificate / independent-solver comparison on real fits",
    ref="§6 C13"),
+ 'C17': dict(
+   text="State-machine theorems over ALL finite histories, with the learner an arbitrary function of (hyper-parameters, data): after any history followed by fit(data) and any non-fit operations the model and n_features_in_ are those of a fresh estimator fitted once on data with the parameters then in force (history independence, whatever was fitted before on whatever dimensionality); refitting is idempotent; query operations, get_metric, get_mahalanobis_matrix, clone and pickle leave the state unchanged; get_metric handles evaluate with the model they copied; hyper-parameters change only through set_params; the last threshold-writing operation determines threshold_; the argument write set of every operation is empty. Tie: history fuzzing on all 17 estimators (random sequences over the full operation alphabet, datasets of differing sizes and dimensionalities, array-valued hyper-parameters, bounds containing 0, array weights): after EVERY step the real estimator is compared with the model's prediction — a fresh clone fitted on the last data — for M, threshold_, n_features_in_ and query outputs; old get_metric handles re-evaluated; returned matrices mutated; every argument array and get_params() compared byte for byte before/after each call.",
+   note=TB + "The map seed → random draws, pickle and clone are external (observed, not modelled). Known finding (recorded, not repaired): clone() raises RuntimeError after a pickle round trip for the 8 classes with deprecated alias parameters (see known_findings.json).",
+   technique="Lean 4 proof (state machine over all histories) + history fuzzing against a fresh-clone oracle",
+   ref="§6 C17"),
 }
 
 NOT_YET = {}
